@@ -14,6 +14,8 @@ import (
 // case: (c11 strict enc (prefix ...) reg decoded escaped [dyn] [cache])
 //   dyn  : registered as reg + "/{id}", requested as the path + "/7"
 //   tail : (with dyn) requested as the path + "/7/"
+//   icpt : the router is built with InterceptAll(decoded) and asked for "/zz" instead: every request is answered as the intercept
+//          path would be (a blank one switches the option off)
 //   cache: the router has its route cache switched on, the canonical spelling is requested first (so that a dynamic route is
 //          already cached when the spelling under test arrives) and every lookup is made twice; all of them must agree
 // obs : ((path P) (match t|f) (serve t|f)) | (panic)
@@ -80,6 +82,9 @@ func c11Gen(r *Rng, tier string, i int) Sx {
 	if r.Chance(1, 4) {
 		c.List = append(c.List, A("cache"))
 	}
+	if r.Chance(1, 8) {
+		c.List = append(c.List, A("icpt"))
+	}
 	return c
 }
 
@@ -119,7 +124,7 @@ func c11Exec(c Sx) (obs Sx) {
 	if strings.ContainsAny(reg+strings.Join(prefixes, ""), "{}[]") {
 		panic("c11: dynamic pattern characters are outside this property's cases")
 	}
-	dyn, cache, tail := false, false, false
+	dyn, cache, tail, icpt := false, false, false, false
 	for _, t := range xs[7:] {
 		switch t.Atom {
 		case "dyn":
@@ -128,6 +133,8 @@ func c11Exec(c Sx) (obs Sx) {
 			cache = true
 		case "tail":
 			tail = true
+		case "icpt":
+			icpt = true
 		default:
 			panic("c11: unknown flavour " + t.String())
 		}
@@ -164,6 +171,11 @@ func c11Exec(c Sx) (obs Sx) {
 		} else {
 			opts = append(opts, rux.EnableCaching)
 		}
+	}
+	if icpt {
+		opts = append(opts, rux.InterceptAll(dec))
+		dec, esc = "/zz", "/zz"
+		u = &url.URL{Path: dec}
 	}
 	r := rux.New(opts...)
 	var rt *rux.Route
